@@ -57,7 +57,7 @@ func propC11(c *Ctx) {
 	c.extra["opcodes_whose_operand_widths_changed"] = dn
 
 	// ---- width-diff ----------------------------------------------------------------------
-	rw := c.Rule("width-diff", "the converter's pre-scan and its rewriting arm each list exactly the opcodes whose operand widths differ between the two formats (computed from the two OpcodeOperands tables): an opcode missing from either list is copied with its old width and every later offset is wrong", 2)
+	rw := c.Rule("width-diff", "every switch over version 1 opcodes in the converter and its helpers (the pre-scan and the rewriting arm, or a predicate shared by both) lists exactly the opcodes whose operand widths differ between the two formats (computed from the two OpcodeOperands tables): an opcode missing from either list is copied with its old width and every later offset is wrong", 1)
 	pe := l.ByPath[encPath]
 	var conv *ast.FuncDecl
 	var convSSA *ssa.Function
@@ -85,7 +85,33 @@ func propC11(c *Ctx) {
 	}
 	info := pe.TypesInfo
 	nsw := 0
-	ast.Inspect(conv.Body, func(n ast.Node) bool {
+	// the converter's body and the bodies of the helpers of its package that it
+	// calls (a shared predicate `isJumpOp` counts for both uses)
+	bodies := []*ast.FuncDecl{conv}
+	seenDecl := map[*ast.FuncDecl]bool{conv: true}
+	for i := 0; i < len(bodies) && i < 16; i++ {
+		ast.Inspect(bodies[i].Body, func(n ast.Node) bool {
+			call, ok := n.(*ast.CallExpr)
+			if !ok {
+				return true
+			}
+			if id, ok := ast.Unparen(call.Fun).(*ast.Ident); ok {
+				if fo, ok := info.Uses[id].(*types.Func); ok && fo.Pkg() == pe.Types {
+					if hd := l.Decl(fo); hd != nil && hd.Body != nil && !seenDecl[hd] {
+						seenDecl[hd] = true
+						bodies = append(bodies, hd)
+					}
+				}
+			}
+			return true
+		})
+	}
+	inspectAll := func(f func(n ast.Node) bool) {
+		for _, fd := range bodies {
+			ast.Inspect(fd.Body, f)
+		}
+	}
+	inspectAll(func(n ast.Node) bool {
 		sw, ok := n.(*ast.SwitchStmt)
 		if !ok {
 			return true
@@ -125,8 +151,8 @@ func propC11(c *Ctx) {
 			"lists exactly {"+strings.Join(dn, ",")+"}", fmt.Sprintf("missing %v, extra %v relative to the opcodes whose widths changed {%s}", missing, extra, strings.Join(dn, ",")))
 		return true
 	})
-	if nsw < 2 {
-		c.Und(rw, fnName(convSSA)+" | switches over version 1 opcodes", l.Pos(conv.Pos()), fmt.Sprintf("found %d switch(es) over version 1 opcodes, expected the pre-scan and the rewriting arm", nsw))
+	if nsw < 1 {
+		c.Und(rw, fnName(convSSA)+" | switches over version 1 opcodes", l.Pos(conv.Pos()), "found no switch over version 1 opcodes in the converter or its helpers, expected the pre-scan and the rewriting arm (or a predicate shared by both)")
 	}
 
 	// ---- no-identity --------------------------------------------------------------------------
